@@ -2,7 +2,7 @@
    Property theorems only; every proof is [exact <lemma>] (or a two-line
    instantiation of one).
 
-   Model: Format.v (format.go + multiline.go).  [format false] / [nl_after false]
+   Model: Format.v (format.go + multiline.go).  [format no_fixes] / [nl_after false]
    / [skel_step false] are the code as it is, the [true] variants carry the two
    repairs proposed in proposed_fixes/ (nlAfter marks the LAST statement of a
    run; the closing bracket of a multi-line literal is indented also after a
@@ -37,12 +37,12 @@ From EvyV Require Import Base FmtAst Format FormatProofs FormatNlProofs FormatSh
 Import ListNotations.
 Open Scope N_scope.
 
-Theorem C07_format_shape : forall (fixed : bool) (p : fprog),
+Theorem C07_format_shape : forall (fixed : fixes) (p : fprog),
   wf_prog p = true -> shape_lines (format fixed p) = true.
 Proof. exact format_shape. Qed.
 Print Assumptions C07_format_shape.
 
-Theorem C07_format_single_final_newline : forall (fixed : bool) (p : fprog),
+Theorem C07_format_single_final_newline : forall (fixed : fixes) (p : fprog),
   wf_prog p = true -> p <> [] -> is_blank (last p (SEmpty [])) = false ->
   ends_one_nl (format fixed p) = true.
 Proof. exact format_single_final_newline. Qed.
@@ -50,7 +50,7 @@ Print Assumptions C07_format_single_final_newline.
 
 (* the code keeps a trailing blank line: `print 1` followed by blank lines *)
 Theorem C07_single_final_newline_refuted : exists p : fprog,
-  wf_prog p = true /\ ends_one_nl (format false p) = false /\ ends_one_nl (format true p) = false.
+  wf_prog p = true /\ ends_one_nl (format no_fixes p) = false /\ ends_one_nl (format all_fixes p) = false.
 Proof.
   exists [SCall (s_ "print") [FNum 0 (s_ "1")] []; SEmpty []; SEmpty []].
   vm_compute. repeat split; reflexivity.
@@ -82,12 +82,12 @@ Proof. exists [KStmt; KStmt; KComment; KFunc]. vm_compute. discriminate. Qed.
 Print Assumptions C07_format_idempotent_refuted.
 
 (* `evy fmt -c` *)
-Theorem C07_check_accepts_iff_formatted : forall (parse : str -> option fprog) (fixed : bool) (t : str),
+Theorem C07_check_accepts_iff_formatted : forall (parse : str -> option fprog) (fixed : fixes) (t : str),
   fmt_check parse fixed t = true <-> exists p, parse t = Some p /\ t = format fixed p.
 Proof. exact fmt_check_iff. Qed.
 Print Assumptions C07_check_accepts_iff_formatted.
 
-Theorem C07_check_accepts_own_output : forall (parse : str -> option fprog) (fixed : bool) (p p' : fprog),
+Theorem C07_check_accepts_own_output : forall (parse : str -> option fprog) (fixed : fixes) (p p' : fprog),
   parse (format fixed p) = Some p' ->
   (fmt_check parse fixed (format fixed p) = true <-> format fixed p' = format fixed p).
 Proof. exact check_accepts_own_output. Qed.
@@ -107,11 +107,11 @@ Definition C07_witness_reparsed_fixed : fprog :=
 
 Example C07_witness_text :
   wf_prog C07_witness = true /\
-  format false C07_witness =
+  format no_fixes C07_witness =
     s_ "a := 1" ++ k_nl ++ k_nl ++ s_ "b := 2" ++ k_nl ++ s_ "// c" ++ k_nl ++ s_ "func f" ++ k_nl ++ s_ "    print a b" ++ k_nl ++ s_ "end" ++ k_nl /\
-  format false C07_witness_reparsed <> format false C07_witness /\
-  format true C07_witness_reparsed_fixed = format true C07_witness /\
-  format true C07_witness =
+  format no_fixes C07_witness_reparsed <> format no_fixes C07_witness /\
+  format all_fixes C07_witness_reparsed_fixed = format all_fixes C07_witness /\
+  format all_fixes C07_witness =
     s_ "a := 1" ++ k_nl ++ s_ "b := 2" ++ k_nl ++ k_nl ++ s_ "// c" ++ k_nl ++ s_ "func f" ++ k_nl ++ s_ "    print a b" ++ k_nl ++ s_ "end" ++ k_nl.
 Proof. vm_compute. repeat split; try reflexivity; discriminate. Qed.
 
@@ -128,6 +128,6 @@ Proof. vm_compute. repeat split; reflexivity. Qed.
 Example C07_close_bracket_after_comment :
   let p := [SIf (CBlock (FBool true) [] [SInferredDecl (s_ "x") (FArr [k_el; s_ "// c" ++ k_nl] [FNum 0 (s_ "1")]) []]) [] None []] in
   wf_prog p = true /\
-  format false p = s_ "if true" ++ k_nl ++ s_ "    x := [1 // c" ++ k_nl ++ s_ "]" ++ k_nl ++ s_ "end" ++ k_nl /\
-  format true p = s_ "if true" ++ k_nl ++ s_ "    x := [1 // c" ++ k_nl ++ s_ "    ]" ++ k_nl ++ s_ "end" ++ k_nl.
+  format no_fixes p = s_ "if true" ++ k_nl ++ s_ "    x := [1 // c" ++ k_nl ++ s_ "]" ++ k_nl ++ s_ "end" ++ k_nl /\
+  format all_fixes p = s_ "if true" ++ k_nl ++ s_ "    x := [1 // c" ++ k_nl ++ s_ "    ]" ++ k_nl ++ s_ "end" ++ k_nl.
 Proof. vm_compute. repeat split; reflexivity. Qed.
